@@ -277,91 +277,120 @@ STEPS = ["orient_sensor_to", "butterworth_filter", "detrend", "window", "_remove
 
 
 def _r4(ck: Checker, prog: Program):
+    """One pass of psd_preprocess's per-record loop as the ordered list of steps taken in each world of the settings
+    (orientation target None / given; transfer function None / given; differentiate off / on; window length None / given;
+    detrend None / 'none' / given).  The list is compared with the documented order:
+    orient?; filter; [demean (constant), taper(*window settings); response removal on ns, ew, vt (stored back) + filter again;
+    differentiation on ns, ew, vt (stored back)]; split?; per-window detrend?"""
+    from ..pathtable import PathTable, outcomes, specialise
     f = prog.func("preprocessing.psd_preprocess")
     q = f.qualname
     loops = [st for st in f.node.body if isinstance(st, ast.For)]
     if len(loops) != 1:
         raise AnalysisError(f"{q}: per-record loop not found")
     lp = loops[0]
-    rec = lp.target.elts[1].id if isinstance(lp.target, ast.Tuple) else lp.target.id
-    seq = []
-    for c in sorted(calls_in(lp), key=lambda x: (x.lineno, x.col_offset)):
-        nm = call_name(c)
-        if nm in ("orient_sensor_to", "butterworth_filter", "detrend", "window", "_remove_instrument_response", "_differentiate", "split"):
-            seq.append((nm, c))
-    names = [n for n, _ in seq]
-    want = ["orient_sensor_to", "butterworth_filter", "detrend", "window", "_remove_instrument_response", "butterworth_filter", "_differentiate", "split", "detrend"]
-    if names == want:
-        ck.ok("C17.R4", q, "step order: " + " < ".join(want))
-    else:
-        ck.violation("C17.R4", q, "step order", f"PSD preprocessing steps appear as {names}; documented order is {want}", loc=f.loc(lp))
-        return
-    cfg = cfg_of(f)
-    h = cfg.node(lp)
+    rec = lp.target.elts[1].id if isinstance(lp.target, ast.Tuple) else (lp.target.id if isinstance(lp.target, ast.Name) else None)
+    if rec is None:
+        raise AnalysisError(f"{q}: per-record loop target")
+    F = sp.Function
+    R_ = lambda n: sp.Symbol(n, real=True)   # noqa: E731
+    SET, REC, NONE = R_("settings"), R_("<record>"), sp.Symbol("None")
+    A = lambda n: F("attr_" + n)(SET)   # noqa: E731
+    ORI, ITF, DIFF, WL, DET, CORN, WIN, FFT = (A(n) for n in ("orient_to_degrees_from_north", "instrument_transfer_function", "differentiate", "window_length_in_seconds",
+                                                             "detrend", "filter_corner_frequencies_in_hz", "window_type_and_width", "fft_settings"))
 
-    def node_of(c):
-        st = c
-        while not isinstance(st, ast.stmt):
-            st = parent_of(st)
-        return cfg.node(st)
-    for (n1, c1), (n2, c2) in zip(seq, seq[1:]):
-        a, b = node_of(c1), node_of(c2)
-        if a is None or b is None or a == b:
-            continue
-        if cfg.exists_path_avoiding(b, a, [h]):
-            ck.violation("C17.R4", q, f"{n1} before {n2}", f"`{n2}` can run before `{n1}` within one record", loc=f.loc(c2))
-    # details: receivers, guards, arguments
-    d = dict()
-    for i, (n, c) in enumerate(seq):
-        d[f"{n}@{i}"] = c
-    det, win = seq[2][1], seq[3][1]
-    blk = parent_of(parent_of(det))
-    good = isinstance(blk, ast.If) and unparse(blk.test) == "settings.instrument_transfer_function is not None or settings.differentiate" \
-        and unparse(det.func.value) == rec and unparse(kwarg(det, "type")) == "'constant'" and unparse(win.func.value) == rec \
-        and [unparse(a) for a in win.args] == ["*settings.window_type_and_width"] and parent_of(parent_of(win)) is blk
-    if good:
-        ck.ok("C17.R4", q, "demean then taper the whole record when a response or differentiation is requested")
-    else:
-        ck.violation("C17.R4", q, "demean/taper block", "the record is not de-meaned and then tapered (in that order, whole record) exactly when a response removal or differentiation is requested",
-                     loc=f.loc(det))
-    for idx, nm, guard in ((4, "_remove_instrument_response", "settings.instrument_transfer_function is not None"), (6, "_differentiate", "settings.differentiate")):
-        c = seq[idx][1]
-        p = parent_of(c)
-        g = None
-        while p is not None and p is not lp:
-            if isinstance(p, ast.If):
-                g = p
-            p = parent_of(p)
-        loop = parent_of(parent_of(c))
-        ok = g is not None and unparse(g.test) == guard
-        # applied to each component and stored back
-        fl = None
-        p = parent_of(c)
-        while p is not None and p is not lp:
-            if isinstance(p, ast.For):
-                fl = p
-            p = parent_of(p)
-        ok = ok and fl is not None and sorted(e.value for e in fl.iter.elts if isinstance(e, ast.Constant)) == ["ew", "ns", "vt"]
-        a0 = unparse(c.args[0]) if c.args else ""
-        ok = ok and a0 == f"getattr({rec}, {unparse(fl.target)})" if fl is not None else False
-        sets = [x for x in calls_in(fl, "setattr")] if fl is not None else []
-        ok = ok and len(sets) == 1 and [unparse(a) for a in sets[0].args[:2]] == [rec, unparse(fl.target)]
-        ok = ok and unparse(c.args[-1]) == "settings.fft_settings"
-        if ok:
-            ck.ok("C17.R4", q, f"{nm} applied to ns, ew, vt under `{guard}` and stored back")
+    def hook(call, T):
+        nm = call_name(call)
+        if isinstance(call.func, ast.Name) and nm in ("_remove_instrument_response", "_differentiate", "setattr"):
+            return F(nm)(*[T.tr(a_) for a_ in call.args], *[F("kw_" + k.arg)(T.tr(k.value)) for k in call.keywords if k.arg])
+        if isinstance(call.func, ast.Attribute) and nm in ("detrend", "window", "butterworth_filter", "orient_sensor_to", "split"):
+            return F(nm)(T.tr(call.func.value), *[T.tr(a_) for a_ in call.args], *[F("kw_" + k.arg)(T.tr(k.value)) for k in call.keywords if k.arg])
+        return None
+    top = [l for l in PathTable(prog, f.module, call_hook=hook, structured=True, unroll=True).leaves(f.node.body) if id(lp) in l.snaps]
+    if not top:
+        raise AnalysisError(f"{q}: the per-record loop is not reached")
+    env = dict(top[0].snaps[id(lp)][0])
+    env[rec] = REC
+    leaves = [l for l in PathTable(prog, f.module, call_hook=hook, env=env, structured=True, unroll=True).leaves(lp.body) if l.exit != "raise"]
+    G = {k: sp.Symbol(f"'<given {n}>'") for k, n in ((ORI, "orientation"), (ITF, "response"), (WL, "window length"), (DET, "detrend type"))}
+    interesting = ("orient_sensor_to", "butterworth_filter", "detrend", "window", "_remove_instrument_response", "_differentiate", "setattr", "split")
+    problems: Dict[str, List[str]] = {"step order": [], "demean/taper block": [], "_remove_instrument_response": [], "_differentiate": [], "re-filter": []}
+    n_worlds = 0
+    for ori in (NONE, G[ORI]):
+        for itf in (NONE, G[ITF]):
+            for diff in (sp.false, sp.true):
+                for wl in (NONE, G[WL]):
+                    for det in (NONE, sp.Symbol("'none'"), G[DET]):
+                        world = {ORI: ori, ITF: itf, WL: wl, DET: det, F("truth")(DIFF): diff, DIFF: diff}
+                        rows = [r for r in outcomes(leaves, world) if r["exit"] in ("fall", "continue")]
+                        if not rows:
+                            raise AnalysisError(f"{q}: no pass of the per-record loop for settings {world}")
+                        n_worlds += 1
+                        comp = lambda c: F("attr_" + c)(REC)   # noqa: E731
+                        want = []
+                        if ori != NONE:
+                            want.append(F("orient_sensor_to")(REC, ori))
+                        want.append(F("butterworth_filter")(REC, CORN))
+                        if itf != NONE or diff == sp.true:
+                            want.append(F("detrend")(REC, F("kw_type")(sp.Symbol("'constant'"))))
+                            want.append(("window", REC))
+                        if itf != NONE:
+                            for c in ("ns", "ew", "vt"):
+                                call_ = F("_remove_instrument_response")(comp(c), itf, FFT)
+                                want.append(call_)
+                                want.append(F("setattr")(REC, sp.Symbol(f"'{c}'"), call_))
+                            want.append(F("butterworth_filter")(REC, CORN))
+                        if diff == sp.true:
+                            for c in ("ns", "ew", "vt"):
+                                call_ = F("_differentiate")(comp(c), FFT)
+                                want.append(call_)
+                                want.append(F("setattr")(REC, sp.Symbol(f"'{c}'"), call_))
+                        for r in rows:
+                            got = []
+                            for e in r["events"]:
+                                v = e[2]
+                                if e[0] == "call" and getattr(getattr(v, "func", None), "__name__", "") in interesting:
+                                    got.append(v)
+                                # calls nested in a stored value (new_tseries = f(...)) are evaluated when stored
+                            # calls that only appear as arguments of setattr are listed before it
+                            seq = []
+                            for v in got:
+                                if v.func.__name__ == "setattr" and len(v.args) == 3 and getattr(getattr(v.args[2], "func", None), "__name__", "") in ("_remove_instrument_response", "_differentiate") \
+                                        and v.args[2] not in seq:
+                                    seq.append(v.args[2])
+                                seq.append(v)
+                            seq = [x for x in seq if x.func.__name__ != "split" and not (x.func.__name__ == "detrend" and x.args[0] != REC)]
+                            ok = len(seq) == len(want)
+                            if ok:
+                                for g_, w_ in zip(seq, want):
+                                    if isinstance(w_, tuple):
+                                        # taper of the whole record with the configured window settings (starred or spelled out)
+                                        ok = ok and g_.func.__name__ == "window" and g_.args[0] == REC and \
+                                            (list(g_.args[1:]) in ([F("splat")(WIN)], [F("getitem")(WIN, sp.Integer(0)), F("getitem")(WIN, sp.Integer(1))]))
+                                    else:
+                                        ok = ok and g_ == w_
+                            if not ok:
+                                names_g = [x.func.__name__ for x in seq]
+                                names_w = [w_[0] if isinstance(w_, tuple) else w_.func.__name__ for w_ in want]
+                                key = "step order"
+                                if names_g == names_w:
+                                    bad_i = [i for i, (g_, w_) in enumerate(zip(seq, want)) if (isinstance(w_, tuple) and not (g_.func.__name__ == "window" and g_.args[0] == REC)) or (not isinstance(w_, tuple) and g_ != w_)]
+                                    nm0 = names_w[bad_i[0]] if bad_i else "window"
+                                    key = {"detrend": "demean/taper block", "window": "demean/taper block", "_remove_instrument_response": "_remove_instrument_response",
+                                           "_differentiate": "_differentiate", "setattr": "_remove_instrument_response" if itf != NONE else "_differentiate",
+                                           "butterworth_filter": "re-filter"}.get(nm0, "step order")
+                                problems[key].append(f"with settings (orientation {ori}, response {itf}, differentiate {diff}) the steps are {[str(x)[:70] for x in seq]}; documented: {names_w}")
+    texts = {"step order": ("step order: orient < filter < demean < taper < response removal < filter < differentiate < split < detrend", "step order"),
+             "demean/taper block": ("demean then taper the whole record when a response or differentiation is requested", "demean/taper block"),
+             "_remove_instrument_response": ("_remove_instrument_response applied to ns, ew, vt exactly when a transfer function is configured, and stored back", "_remove_instrument_response"),
+             "_differentiate": ("_differentiate applied to ns, ew, vt exactly when differentiation is configured, and stored back", "_differentiate"),
+             "re-filter": ("filter repeated after response removal", "re-filter")}
+    for k, (oktext, key) in texts.items():
+        if not problems[k]:
+            ck.ok("C17.R4", q, oktext, detail=f"{n_worlds} settings combinations, {len(leaves)} paths through one pass of the loop")
         else:
-            ck.violation("C17.R4", q, nm, f"`{nm}` is not applied to each of ns/ew/vt (and stored back) exactly under `{guard}`", loc=f.loc(c))
-    refil = seq[5][1]
-    p = parent_of(refil)
-    g = None
-    while p is not None and p is not lp:
-        if isinstance(p, ast.If):
-            g = p
-        p = parent_of(p)
-    if g is not None and unparse(g.test) == "settings.instrument_transfer_function is not None" and unparse(refil.args[0]) == "settings.filter_corner_frequencies_in_hz":
-        ck.ok("C17.R4", q, "filter repeated after response removal", nontrivial=False)
-    else:
-        ck.violation("C17.R4", q, "re-filter", "the filter is not repeated after the response removal", loc=f.loc(refil))
+            ck.violation("C17.R4", q, key, sorted(set(problems[k]))[0][:2500], loc=f.loc(lp))
+    # split / per-window detrend: the wiring table of the HVSR preprocessing (same shape)
     first = f.node.body[0]
     if isinstance(first, ast.Expr) and call_name(first.value) == "prepare_fft_settings":
         ck.ok("C17.R4", q, "fft length prepared first", nontrivial=False)
